@@ -42,6 +42,9 @@ def run(ctx):
         term = a.shape(f, "w", W_NAMES)
         toks = tokens(term)
         inst = f"WRITERS[{kind}] -> {f.qualname}"
+        if has_unknown(term):
+            ctx.unrecognised("C02.R2", inst, f.where(), f"constructs not modelled by the shape extractor: {has_unknown(term)}")
+            continue
 
         def chk(ok, what, got):
             ctx.check("C02.R2", f"{inst}: {what}", ok, f.where(), f"{f.qualname}: {what}: {got}", f"{what} is `{got}`")
